@@ -36,7 +36,15 @@ theorem updStream_forall (P : StreamSt → Prop) (ss : List StreamSt) (sid : Nat
         exact hst
 
 /-- Per-stream invariant: window within 2^31-1, and the application never got more than was accepted. -/
-def SInv (s : StreamSt) : Prop := s.win ≤ maxWindow ∧ s.delivered ≤ s.bodyBytes
+def SInv (s : StreamSt) : Prop := s.win ≤ maxWindow ∧ s.delivered ≤ s.bodyBytes ∧ 0 ≤ s.short
+
+theorem advWin_spec (m : Mon) (h : m.streamInit ≤ maxWindow) :
+    advWin m ≤ maxWindow ∧ 0 ≤ advWin m - m.streamInit := by
+  unfold advWin initialWindowSize
+  unfold maxWindow at *
+  split
+  · omega
+  · split <;> omega
 
 structure MInv (m : Mon) : Prop where
   conn_le : m.conn ≤ maxWindow
@@ -112,9 +120,8 @@ theorem dataAct_inv (m : Mon) (sid : Nat) (len pad : Int) (es : Bool) (h : MInv 
                 have := h3 s (findStream_mem _ _ _ hs')
                 unfold SInv at *
                 simp only
-                constructor
-                · omega
-                · split <;> omega
+                refine ⟨by omega, ?_, by omega⟩
+                split <;> omega
 
 theorem actStep_inv (m : Mon) (a : Act) (h : MInv m) : MInv (actStep m a).m := by
   cases a with
@@ -124,6 +131,26 @@ theorem actStep_inv (m : Mon) (a : Act) (h : MInv m) : MInv (actStep m a).m := b
     · constructor <;> simp [Mon.init, initialWindowSize, maxWindow]
     · rename_i hs
       constructor <;> simp [Mon.init, initialWindowSize, maxWindow] <;> (try (unfold maxWindow at hs; omega))
+  | ereset c s =>
+    simp only [actStep]
+    split
+    · constructor <;> simp [Mon.init, initialWindowSize, maxWindow]
+    · rename_i hs
+      constructor <;> simp [Mon.init, initialWindowSize, maxWindow] <;> (try (unfold maxWindow at hs; omega))
+  | ack =>
+    simp only [actStep]
+    split
+    · exact h
+    · obtain ⟨h1, h2, h3, h4⟩ := h
+      refine ⟨h1, h2, ?_, h4⟩
+      intro s hs
+      simp only [List.mem_map] at hs
+      obtain ⟨a, ha, e⟩ := hs
+      subst e
+      have := h3 a ha
+      unfold SInv at *
+      simp only
+      omega
   | hdr sid cl es =>
     simp only [actStep]
     obtain ⟨h1, h2, h3, h4⟩ := h
@@ -134,13 +161,13 @@ theorem actStep_inv (m : Mon) (a : Act) (h : MInv m) : MInv (actStep m a).m := b
         intro s hs
         rcases List.mem_cons.mp hs with e | e
         · subst e
-          exact ⟨h2, by simp⟩
+          exact ⟨(advWin_spec m h2).1, by simp, (advWin_spec m h2).2⟩
         · exact h3 s e
       · refine ⟨h1, h2, ?_, h4⟩
         intro s hs
         rcases List.mem_cons.mp hs with e | e
         · subst e
-          exact ⟨h2, by simp⟩
+          exact ⟨(advWin_spec m h2).1, by simp, (advWin_spec m h2).2⟩
         · exact h3 s e
   | shutdown sid =>
     simp only [actStep]
@@ -151,7 +178,7 @@ theorem actStep_inv (m : Mon) (a : Act) (h : MInv m) : MInv (actStep m a).m := b
       intro s hs
       rcases List.mem_cons.mp hs with e | e
       · subst e
-        exact ⟨h2, by simp⟩
+        exact ⟨(advWin_spec m h2).1, by simp, (advWin_spec m h2).2⟩
       · exact h3 s e
   | treset c s =>
     simp only [actStep]
@@ -168,7 +195,7 @@ theorem actStep_inv (m : Mon) (a : Act) (h : MInv m) : MInv (actStep m a).m := b
       intro s hs
       rcases List.mem_cons.mp hs with e | e
       · subst e
-        exact ⟨h2, by simp⟩
+        exact ⟨h2, by simp, by simp⟩
       · exact h3 s e
   | rhdr sid es =>
     obtain ⟨h1, h2, h3, h4⟩ := h
@@ -332,6 +359,7 @@ theorem resetLine_inv (m m' : Mon) (l : Line) (h : MInv m) (hs : resetLine m l =
 theorem lineStep_inv (m m' : Mon) (l : Line) (h : MInv m) (hs : lineStep m l = .ok m') : MInv m' := by
   unfold lineStep at hs
   split at hs
+  · exact resetLine_inv m m' l h hs
   · exact resetLine_inv m m' l h hs
   · exact resetLine_inv m m' l h hs
   · split at hs
